@@ -331,6 +331,23 @@ def handle0 : Handler := fun op args impl =>
         verdictOf (impl == expectAln rows) ("roundtrip-" ++ fmt)
       else "na"
     some ⟨m, verdict⟩
+  | "roundtripu", [fmt, w, o, alpha, rows] => do
+    -- names holding well-formed multi-byte UTF-8 LETTERS (no model: the writer models are ASCII-only).  Such a name is
+    -- judged like the ASCII name obtained by writing `z` for every non-ASCII rune: the round trip must return the ORIGINAL rows
+    let w ← decWOpts w
+    let o ← decPOpts o
+    let rows ← decXRows rows
+    let wf := rows.all fun r => Utf8.norm r.1 == r.1
+    let rows' := rows.map fun r => ((Utf8.runes r.1).map fun c => if c < 128 then UInt8.ofNat c else 122, r.2)
+    let distinctNames := (rows.map (·.1)).eraseDups.length == rows.length
+    let verdict :=
+      -- (the strict Phylip writer cuts a name after 10 BYTES and pads to 10 runes: a name is representable there when it
+      -- has at most 10 bytes)
+      if alpha == "auto" && defaultPOpts o w.strict && wf && distinctNames && reprFmt fmt w.strict rows' &&
+          (!(fmt == "phylip" && w.strict) || rows.all fun r => r.1.length ≤ 10) then
+        verdictOf (impl == expectAln rows) ("roundtrip-" ++ fmt ++ "-utf8-names")
+      else "na"
+    some ⟨"unmodelled", verdict⟩
   | "filert", [fmt, _ext, w, o, alpha, rows] => do
     let w ← decWOpts w
     let o ← decPOpts o
